@@ -25,8 +25,8 @@ Print Assumptions Gen_generator_order_known.
 (* the relative order the per-property slices assume: namespace, prefix, suffix, labels, annotations *)
 Theorem Gen_transformer_order_modelled :
   filter (fun n => str_in n modelled_transformers) gen_transformer_order =
-  ["NamespaceTransformer"; "PrefixTransformer"; "SuffixTransformer"; "LabelTransformer"; "AnnotationsTransformer";
-   "ReplicaCountTransformer"; "ImageTagTransformer"]%string.
+  ["PatchTransformer"; "NamespaceTransformer"; "PrefixTransformer"; "SuffixTransformer"; "LabelTransformer";
+   "AnnotationsTransformer"; "ReplicaCountTransformer"; "ImageTagTransformer"]%string.
 Proof. exact gen_transformer_order_modelled. Qed.
 Print Assumptions Gen_transformer_order_modelled.
 
@@ -87,3 +87,18 @@ Theorem PIPE_identity_count :
     exists srcs : list (option node), List.length outs <= List.length srcs /\ somes srcs = inputs t.
 Proof. exact build_frame_count. Qed.
 Print Assumptions PIPE_identity_count.
+
+(* ---------- patches: (C10 at the level of one entry of the integrated model) ----------
+   An entry with a target changes only what the target selects: every resource of the map whose current id is not
+   among the selected ones (resWrangler.Select over the documents WITH their build annotations, w-c10's
+   Res/Selector.v) and that is not nil / empty is in the result unchanged - whatever the patch, the schema
+   projection and the go-yaml oracle. *)
+From KV Require Res.PipelinePatchProofs Res.Selector.
+Theorem PIPE_patch_changes_only_selected :
+  forall nonstr p s m m',
+    pp_target p = Some s -> patch_transform nonstr p m = Ok m' ->
+    exists ids, PipelinePatchProofs.selected_ids s m = Ok ids /\
+      forall r, In r m -> existsb (resid_raw_eqb (cur_id pipe_cs r)) ids = false ->
+                nil_or_empty (r_node r) = false -> In r m'.
+Proof. exact PipelinePatchProofs.patch_changes_only_selected. Qed.
+Print Assumptions PIPE_patch_changes_only_selected.
